@@ -74,6 +74,12 @@ type Options struct {
 	Storage storage.Storage
 	// Version string reported to peers.
 	Version string
+	// Upstream, if set, receives the frames the link readers hand up, instead
+	// of the switch (byte-level link checks observe delivery there).
+	Upstream chan frame.Frame
+	// LinkOnly starts only state and peering (no switch and router workers):
+	// used by byte-level link checks whose harness is the upper layer.
+	LinkOnly bool
 }
 
 // Node is one simulated router.
@@ -91,7 +97,8 @@ type Node struct {
 	Tun     *tun.Device
 	Alerts  *mgr.AlertMgr
 
-	started bool
+	started  bool
+	linkOnly bool
 }
 
 // BaseStore returns a config store for the identity.
@@ -118,7 +125,7 @@ func New(name string, id *m.Address, store config.Store, opts Options) (*Node, e
 	inst.Builder = frame.NewFrameBuilder()
 	inst.Builder.SetFrameMargins(peering.FrameOffset, peering.FrameOverhead)
 
-	n := &Node{Name: name, Inst: inst, ID: id, IP: id.IP}
+	n := &Node{Name: name, Inst: inst, ID: id, IP: id.IP, linkOnly: opts.LinkOnly}
 	n.Storage = opts.Storage
 	if n.Storage == nil {
 		n.Storage = storage.NewMemStorage()
@@ -140,7 +147,11 @@ func New(name string, id *m.Address, store config.Store, opts Options) (*Node, e
 	inst.Rt = n.Router
 	n.Switch = switchr.New(inst, n.Router.Input())
 	inst.Sw = n.Switch
-	n.Peering = peering.New(peeringView{inst}, n.Switch.Input())
+	up := n.Switch.Input()
+	if opts.Upstream != nil {
+		up = opts.Upstream
+	}
+	n.Peering = peering.New(peeringView{inst}, up)
 	inst.Pr = n.Peering
 
 	n.Alerts = mgr.NewAlertMgr(nil)
@@ -170,6 +181,9 @@ func (n *Node) Start() error {
 	}
 	if err := n.Peering.Start(); err != nil {
 		return err
+	}
+	if n.linkOnly {
+		return nil
 	}
 	if err := n.Switch.Start(); err != nil {
 		return err
